@@ -20,7 +20,8 @@
        durable applied-delta record on the target after the batch (also when the batch carried
        other commands and its commit fell back to one command per batch);
      - after an accepted fence and before the switch the source answers every ordinary
-       command for hash slot 12 with hash_slot_fenced; before the fence never;
+       command touching hash slot 12 — by its envelope or, for a multi-hash-slot command, by
+       any of its items — with hash_slot_fenced; before the fence never;
      - a slot that does not own hash slot 12 refuses ordinary commands for it (ApplyBatch
        error) and its store is unchanged.
    Definitions only. *)
@@ -185,6 +186,15 @@ Definition C39_mismatch (c : c39_case) : bool :=
 
 Definition is_ordinary (e : entry) : bool := negb (isMigrationMaintenanceCommand (e_cmd e)).
 
+(* the command touches the migrating hash slot: by its envelope, or (multi-hash-slot commands,
+   e_chan kind 5 lists the item hash slots) by one of its items *)
+Definition touches_mig (e : entry) : bool :=
+  (e_hs e =? HS_MIG)
+  || match e_chan e with
+     | Some o => (ch_kind o =? 5) && existsb (fun b => match b with [x] => x =? HS_MIG | _ => false end) (ch_uids o)
+     | None => false
+     end.
+
 Record mon := Mon {
   m_fenced : bool;            (* a fence for hash slot 12 was accepted by the source *)
   m_switched : bool;
@@ -214,7 +224,7 @@ Fixpoint src_fence_walk (fenced : bool) (cmds : list entry) (rs : list (N * N)) 
     | HFence h _ =>
         src_fence_walk (fenced || ((h =? HS_MIG) && (e_hs e =? HS_MIG) && (fst r =? R_OK))) cr rr
     | _ =>
-      if is_ordinary e && (e_hs e =? HS_MIG) && e_slot_ok e then
+      if is_ordinary e && touches_mig e && e_slot_ok e then
         if Bool.eqb (fst r =? R_FENCED) fenced then src_fence_walk fenced cr rr else None
       else src_fence_walk fenced cr rr
     end
